@@ -44,7 +44,7 @@ def branch_atoms(fn, resolve_locals=False):
 
 
 class Must:
-    def __init__(self, fn, elem_fx=None, edge_fx=None, init=frozenset(), resolve_locals=False):
+    def __init__(self, fn, elem_fx=None, edge_fx=None, init=frozenset(), resolve_locals=False, pseudo=False):
         """elem_fx(eid, x) -> (adds, kills) or None;  edge_fx(block, succ_index, atom, holds) -> adds
         where `atom` is the stripped branch condition and `holds` says whether it is true on
         that edge."""
@@ -60,7 +60,7 @@ class Must:
                     x = fn.e(el)
                     r = elem_fx(el, x) if (elem_fx and x) else None
                     lst.append((el, r))
-                elif isinstance(el, dict) and elem_fx:
+                elif isinstance(el, dict) and elem_fx and pseudo:
                     # pseudo elements: automatic-object destructors / ctor initialisers
                     r = elem_fx(None, el)
                     if r:
